@@ -108,6 +108,11 @@ def probed_keyed(k=0, v=0):
     return [k, v]
 
 
+def probed_keyed2(k=0, v=0):
+    """a second task with the same signature: its invocations never share a concurrency key with probed_keyed's"""
+    return probed_keyed(k, v)
+
+
 ATTEMPTS = {}  # invocation id -> number of body executions so far (stepping / controlled runs are in-process)
 
 
